@@ -289,3 +289,5 @@ Example c20_call_hint_witness :
   (exists f, build cfg c = Some (inr f) /\ hint_value f = 80%N) /\
   call_hint cfg {| k_kind := Timer; k_key := []; k_arg := AVecU64 []; k_ops := [] |} = None.
 Proof. vm_compute. split; [reflexivity|]. split; [eexists; split; reflexivity|reflexivity]. Qed.
+
+(* Note after the second read-only review of these pins (selftest/audit/REVIEW-2-2026-10-02.md): c20_call_hint_defined(_iff_value) hold by unfolding Hint.call_hint (defined exactly when a line exists); the wadd pins other than c20_wadd_is_add_mod are arithmetic consequences kept so that a model without the 'mod' fails visibly (c20_wadd_wraps). *)
